@@ -23,7 +23,6 @@ import (
 	wasmkeeper "github.com/CosmWasm/wasmd/x/wasm/keeper"
 	wasmvmtypes "github.com/CosmWasm/wasmvm/v2/types"
 	"github.com/cosmos/gogoproto/proto"
-	storetypes "cosmossdk.io/store/types"
 	sdk "github.com/cosmos/cosmos-sdk/types"
 	skywaytypes "github.com/palomachain/paloma/v2/x/skyway/types"
 	"github.com/palomachain/paloma/v2/zzverif/report"
@@ -127,12 +126,12 @@ func run(r *report.Run, replayFile string, dump bool) {
 		c.dump()
 		return
 	}
-	r.Rule = "for every palomachain.paloma.* sdk.Msg type in the interface registry: a template valid in the prepared world (3 validators, active chain, B's keep-alive / chain account / relayer fee / bridge vote / batch estimate+confirm / message signature+estimate+evidence+delivery report, U's pooled transfer / batches / job / denoms / user contract, M's pending licence, governance settings incl. a compass deployment in flight); every assignment of {A,B,U,G,L} to every identity-bearing leaf (string/bytes leaf equal to an acc-bech32 / valoper-bech32 / raw / eth encoding of an actor) and to metadata.creator, signers=[A], really signed by A and delivered through ante + router; MsgConfirmBatch additionally with {B's valid signature, attacker-key signature, B's signature over another batch}; thorough tier repeats everything with a fee grant B->A. Oracle: projection of all records attributed to B,U,G,L,M before/after"
+	r.Rule = "for every palomachain.paloma.* sdk.Msg type in the interface registry: a template valid in the prepared world (3 validators, active chain, B's keep-alive / chain account / relayer fee / bridge vote / batch estimate+confirm / message signature+estimate+evidence+delivery report, U's pooled transfer / batches / job / denoms / user contract, M's pending licence, governance settings incl. a compass deployment in flight); every assignment of {A,B,U,G,L} to every identity-bearing leaf (string/bytes leaf equal to an acc-bech32 / valoper-bech32 / raw / eth encoding of an actor) and to metadata.creator, signers=[A], really signed by A and delivered through ante + router; MsgConfirmBatch additionally with {B's valid signature, attacker-key signature, B's signature over another batch}; everything repeated with a fee grant B->A; thorough tier additionally delivers the same product the way x/wasm delivers a contract's CosmosMsg::Any (wasmd SDKMessageHandler: signers == contract address, no ante). Oracle: projection of all records attributed to B,U,G,L,M before/after"
 	r.Assumptions = []string{
 		"attribution: a record belongs to a principal when its key or value contains the principal's account bytes, account bech32, operator bech32, consensus address (B) or external-chain address (raw or hex, any case); governance owns the params stores and an explicit list of setting families (chain infos, compass contracts and deployments, bridge tax / limits, sale contracts, observed-nonce cursor, pigeon requirements, light-node feegranter/funders)",
 		"a denom string factory/<address>/<sub> mentions its creator; outside the denom-owned families (tokenfactory records, bank denom metadata and supply, skyway denom<->erc20 mappings) such a mention does not attribute a record (e.g. A's own pooled transfer of U's token)",
 		"stored values shared by several principals are split: attestation -> one part per vote + body; queued consensus message -> per-validator signature / evidence / gas estimate, delivery report, error report, body; the body is attributed to the job caller / contract author, never to the assignee chosen by the chain",
-		"a record newly filed under the key of a principal that authorised the transaction (A; B with a fee grant) is that principal's own: identities it mentions inside do not attribute it (e.g. B registering an external address)",
+		"a record filed under a principal's address (the key carries it) belongs to that principal only; identities mentioned in its value are content (e.g. an external address B registers); only records keyed by ids / hashes / names are attributed through their value",
 		"giftable (not violations): bank balance of a victim not decreasing; a new auth account; tokenfactory admin hand-over to someone (C16); a new light-node licence for someone else with its account (C18)",
 		"out of scope: staking / slashing / distribution stores and valset jail reasons (jailing is C13); MsgSubmitBadSignatureEvidence is enumerated but its jailing effect is not judged here",
 		"with a fee grant B->A every transaction signed by A is authorised by B in the property's wording ('an address holding a fee grant from it'): B's records are then free, U/G/L/M stay protected; additionally the template with creator=B must not be refused by the ante chain",
@@ -140,11 +139,12 @@ func run(r *report.Run, replayFile string, dump bool) {
 		"MsgSetLegacyLightNodeClients is a parameterless migration trigger; the prepared world has no light-node feegranter so it is a no-op here",
 		"message types registered as sdk.Msg without a router handler cannot be delivered (baseapp refuses them) and are listed as unroutable",
 		"Any-typed sub-messages (evidence proofs, bad-signature subjects) are not searched for identities",
+		"wasm extension: the contract path is reproduced with wasmd's exported SDKMessageHandler over the application's router and codec (the application's own messenger instance is unexported); the custom-binding messengers are not exercised; contract C is modelled as an account with a classic contract address",
 	}
 	for s, why := range excludedStores {
 		r.Assumptions = append(r.Assumptions, "store "+s+" not projected: "+why)
 	}
-	sort.Strings(r.Assumptions[11:])
+	sort.Strings(r.Assumptions[12:])
 
 	if replayFile != "" {
 		c.replay(replayFile)
@@ -313,23 +313,46 @@ var denomOwnedKinds = map[string]bool{
 	"skyway/denom-to-erc20": true, "skyway/erc20-to-denom": true,
 }
 
+// attrOwners attributes a record. A record filed under a principal's address
+// (the key carries it) belongs to that principal only: identities mentioned in
+// its value are content. Only records keyed by something else (ids, hashes,
+// names) are attributed through their value. In the denom-owned families the
+// denom's creator (in the key) and the admin (in the value) both own the record.
 func (c *checker) attrOwners(r *rec) map[string]bool {
 	if r == nil {
 		return map[string]bool{}
 	}
-	if r.Store != "tokenfactory" && !(r.Store == "bank" && (strings.HasPrefix(r.Kind, "bank/0x00") || strings.HasPrefix(r.Kind, "bank/0x01"))) && !denomOwnedKinds[r.Kind] {
-		// denom mentions outside denom-owned families do not attribute
-		attr := r.Attr
-		for _, p := range c.e.principals {
-			attr = []byte(strings.ReplaceAll(string(attr), "factory/"+p.Acc.String(), "factory/~"))
+	denomOwned := r.Store == "tokenfactory" || (r.Store == "bank" && (strings.HasPrefix(r.Kind, "bank/0x00") || strings.HasPrefix(r.Kind, "bank/0x01"))) || denomOwnedKinds[r.Kind]
+	strip := func(b []byte) []byte {
+		if denomOwned {
+			return b
 		}
-		if len(attr) != len(r.Attr) {
-			cp := *r
-			cp.Attr = attr
-			return c.e.owners(&cp)
+		// denom mentions outside denom-owned families do not attribute
+		for _, p := range c.e.principals {
+			b = []byte(strings.ReplaceAll(string(b), "factory/"+p.Acc.String(), "factory/~"))
+		}
+		return b
+	}
+	if r.explicit {
+		cp := *r
+		cp.Attr = strip(r.Attr)
+		return c.e.owners(&cp)
+	}
+	kr := *r
+	kr.Attr = strip(r.Key)
+	ko := c.e.owners(&kr)
+	named := false
+	for o := range ko {
+		if o != "G" {
+			named = true
 		}
 	}
-	return c.e.owners(r)
+	if named && r.Store != "tokenfactory" {
+		return ko
+	}
+	vr := *r
+	vr.Attr = strip(append(append([]byte{}, r.Key...), r.Val...))
+	return c.e.owners(&vr)
 }
 
 func (c *checker) judge(before, after projection, free map[string]bool, allow func(change) bool) (viol []change, changedKinds []string, ownA int) {
@@ -390,12 +413,6 @@ func (c *checker) judge(before, after projection, free map[string]bool, allow fu
 				c.exempted["own-external-signature:"+kind]++
 				continue
 			}
-			if ch.Op == "add" && ra != nil && c.ownKey(ra, free) {
-				// a record filed under the authorised principal's own address: what it
-				// mentions inside is its owner's choice, not an attribution
-				c.exempted["own-record-mentions:"+kind]++
-				continue
-			}
 			if why := c.giftable(*ch, rb, ra); why != "" {
 				c.exempted[why]++
 				continue
@@ -415,18 +432,6 @@ func (c *checker) judge(before, after projection, free map[string]bool, allow fu
 	}
 	sort.Strings(changedKinds)
 	return
-}
-
-// ownKey: the record's key carries the address of a principal that authorised
-// the transaction (A; B too when A holds B's fee grant).
-func (c *checker) ownKey(r *rec, free map[string]bool) bool {
-	lower := []byte(strings.ToLower(string(r.Key)))
-	for _, p := range c.e.principals {
-		if (p.Name == "A" || p.Name == "C" || free[p.Name]) && p.in(r.Key, lower) {
-			return true
-		}
-	}
-	return false
 }
 
 // giftable returns a reason when the change is of a kind the properties define
@@ -537,27 +542,22 @@ func (c *checker) shrink(cs caseSpec, o outcome) (caseSpec, outcome) {
 // through which somebody other than the signer is named (after shrinking).
 func (c *checker) signature(cs caseSpec, o outcome) string {
 	var fs []string
-	creator := false
 	for p, a := range cs.Assign {
 		if a != c.attacker(cs.Variant).Name {
 			fs = append(fs, p)
-			if p == "Metadata.Creator" {
-				creator = true
-			}
 		}
 	}
 	sort.Strings(fs)
 	if len(fs) == 0 {
 		fs = []string{"-"}
 	}
-	if cs.Variant == "wasm" && creator {
-		// one defect: the contract path never authenticates metadata.creator
-		return "wasm:creator-unauthenticated"
+	if cs.Variant == "wasm" {
+		// one defect class, keyed separately: x/wasm routes a contract's message to the
+		// handler without the ante chain, so neither metadata.creator nor any other
+		// named principal is authenticated on that path
+		return "wasm:principal-unauthenticated"
 	}
 	s := "forge:" + shortType(cs.Type) + ":" + strings.Join(fs, ",")
-	if cs.Variant == "wasm" {
-		s = "wasm:" + s
-	}
 	if cs.SigVar != "" && cs.SigVar != "valid" {
 		s += ":sig=" + cs.SigVar
 	}
@@ -631,9 +631,9 @@ func (c *checker) enumerate() {
 	r.Extra["templates_accepted_from_legitimate_principal"] = float64(valid)
 	r.Extra["templates_rejected_from_legitimate_principal"] = invalid
 
-	variants := []string{"plain"}
+	variants := []string{"plain", "grant"}
 	if r.Thorough() {
-		variants = append(variants, "grant", "wasm")
+		variants = append(variants, "wasm")
 	}
 	deadline := r.Deadline(150*time.Second, 25*time.Minute)
 	fieldReport := map[string][]string{}
@@ -702,7 +702,6 @@ func (c *checker) legit(url string) error {
 	if t.Prep != nil {
 		t.Prep(ctx)
 	}
-	before := c.e.w.StoreDigest(ctx, c.storeNames()...)
 	msg := t.Build()
 	if t.Principal == "G" {
 		if err := c.e.w.GovExec(ctx, msg); err != nil {
@@ -714,17 +713,7 @@ func (c *checker) legit(url string) error {
 			return fmt.Errorf("[%s] %v", res.Stage, res.Err)
 		}
 	}
-	_ = before
 	return nil
-}
-
-func (c *checker) storeNames() []string {
-	var out []string
-	for n := range c.e.stores {
-		out = append(out, n)
-	}
-	sort.Strings(out)
-	return out
 }
 
 func (c *checker) replay(file string) {
@@ -784,4 +773,3 @@ func (c *checker) dump() {
 	fmt.Println("records:", len(p))
 }
 
-var _ storetypes.StoreKey
